@@ -98,6 +98,12 @@ def judge(case):
     viol = []
 
     def bad(sig, **kw):
+        if sig.endswith(":result_violates_constraint"):
+            # open finding (filed under C01): the solver instantiates numeric quantifiers that are universal in negation
+            # normal form with a few chosen values only; repair and mutate inherit its answers
+            from props import c01_solver as _c01
+            if _c01.universal_numq(f):
+                sig += ":universal_numq"
         viol.append(dict(sig=sig, constraint=text, string=s, **kw))
 
     def ref(tree):
